@@ -38,6 +38,9 @@ class Opts:
         self.__dict__.update(kw)
 
 
+LONG_NAMES = ["a_rather_long_variable_name", "Zwischenergebnis_der_Berechnung_1", "v2345678901234567", "_" * 17]
+
+
 class Gen:
     def __init__(self, rnd, opts=None):
         self.r = rnd
@@ -45,6 +48,17 @@ class Gen:
         self.defs = []
         self.nlab = 0
         self.nloop = 0
+        # identifier spellings: mostly short, sometimes longer than the small-string buffer of std::string
+        self.long = rnd.random() < 0.25
+        self.names = {}
+
+    def nm(self, base):
+        """spelling of an identifier (label / program name); a few are made long"""
+        if not self.long:
+            return base
+        if base not in self.names:
+            self.names[base] = base + ("_" + "x" * self.r.randint(12, 30) if self.r.random() < 0.5 else "")
+        return self.names[base]
 
     def const(self):
         if self.o.boundary and self.r.random() < 0.3:
@@ -76,7 +90,7 @@ class Gen:
         o = self.o
         if self.r.random() < o.p_label and o.allow_goto:
             self.nlab += 1
-            st["label"] = "L%d" % self.nlab
+            st["label"] = self.nm("L%d" % self.nlab)
             labels.append(st["label"])
         r = self.r.random()
         if r < 0.45 or depth >= o.max_depth:
@@ -117,7 +131,7 @@ class Gen:
                     if not labels:
                         if "label" not in body[-1]:
                             self.nlab += 1
-                            body[-1]["label"] = "L%d" % self.nlab
+                            body[-1]["label"] = self.nm("L%d" % self.nlab)
                         labels.append(body[-1]["label"])
                     st["target"] = self.r.choice(labels)
                 if st["k"] in ("loop", "while"):
@@ -133,7 +147,7 @@ class Gen:
             out = None
             if params and self.r.random() < 0.5:
                 out = self.r.choice(vars_)
-            name = "f%d" % i
+            name = self.nm("f%d" % i)
             if self.defs and self.r.random() < o.p_redefine:
                 name = self.r.choice(self.defs)["name"]   # redefinition of an earlier name
             labels = []
@@ -141,11 +155,12 @@ class Gen:
             self.fix(b, labels)
             self.defs.append({"name": name, "params": params, "out": out, "body": b})
         labels = []
-        b = self.body(VARS, 0, labels, self.r.randint(*o.main_len))
+        mvars = VARS + ([self.r.choice(LONG_NAMES)] if self.long else [])
+        b = self.body(mvars, 0, labels, self.r.randint(*o.main_len))
         self.fix(b, labels)
         if o.init_vars:
             init = [{"k": "assign", "var": v, "val": ("const", self.r.choice([1, 2, 3, 4]))}
-                    for v in self.r.sample(VARS, self.r.randint(0, 3))]
+                    for v in self.r.sample(mvars, self.r.randint(0, 3))]
             b = init + b
         return {"defs": self.defs, "main": b}
 
